@@ -109,7 +109,7 @@ KeySpec == [get |-> "r1", set |-> "w1", mget |-> "rall", mset |-> "walt", del |-
             incr |-> "w1", lpush |-> "w1", lrange |-> "r1", lmove |-> "w12", sadd |-> "w1", sunion |-> "rall",
             sinterstore |-> "w1rrest", smembers |-> "r1", zadd |-> "w1", zcard |-> "r1", hset |-> "w1", hget |-> "r1",
             rename |-> "w12", getdel |-> "rw1", publish |-> "c1", subscribe |-> "call", flushdb |-> "none", save |-> "none",
-            lastsave |-> "none", strlen |-> "r1", append |-> "w1"]
+            lastsave |-> "none", strlen |-> "r1", append |-> "w1", zinter |-> "rall", zunion |-> "rall"]
 
 KSpec(name) == IF name \in DOMAIN KeySpec THEN KeySpec[name] ELSE "none"
 
